@@ -228,6 +228,20 @@ def run(chk):
                 chk.discharge(key)
     check_impl_set(chk, prog, sim)
     check_gain_selection(chk, prog, sim)
+    # a followed-command change reaches the controller through SettableData::following: only follow / stop_following may write it
+    # (a reset that rebuilds the SettableData silently stops following); the who-may-write table is shared with C15
+    import rules.C15 as C15
+    import report
+    subw = report.Check("C11", chk.tier)
+    C15.check_writers(subw, prog)
+    chk.evaluations += subw.evaluations
+    keyw = "set:following-link-writers"
+    chk.obligation(keyw, "CommandPID never writes its SettableData outside set/follow/stop_following")
+    badw = [v for v in subw.violations if "CommandPID" in v["key"] or "command_pid" in v["key"] or v["rule"] in ("analysis-incomplete",)]
+    for v in badw:
+        chk.violation("C11.set" if v["rule"].startswith("C15") else v["rule"], "following:" + v["key"], "a followed-command change can no longer restart the computation: " + v["what"], **v["detail"])
+    if not badw:
+        chk.discharge(keyw)
     chk.assume("real-arithmetic model (rounding not decided)", "following = None; a followed command change is a set() and is covered by impl_set + C15",
                "runs longer than the scripts follow the same recurrence (the third-sample-onward branch is exercised twice in the longest script)")
     chk.extra["std_models"] = sorted(sim.stats["models_used"])
